@@ -47,6 +47,9 @@ def all_configs():
     for R in RADII:
         for fno in FNOS + (0.5,):
             out.append(("paraboloid", (R, fno)))
+        for fno in (0.6, 2.0):
+            for n in (1.3, 1.5, 1.7, 2.0):
+                out.append(("window_paraboloid", (R, fno, n)))
         for (p, q) in ECC:
             for near in (False, True):
                 for na in NAS:
